@@ -19,12 +19,11 @@ def main():
     res_path = os.path.join(ROOT, 'tools', 'revert_eval.json')
     if os.path.exists(res_path):
         out = json.load(open(res_path))
-    seen_commits = {}
-    for e in kf:
-        if e.get('status') != 'fixed' or not e.get('commit'):
-            continue
-        if want and e['key'] not in want:
-            continue
+    import concurrent.futures, threading
+    lock = threading.Lock()
+    todo = [e for e in kf if e.get('status') == 'fixed' and e.get('commit') and (not want or e['key'] in want)]
+
+    def one(e):
         commits = e['commit'].replace(',', ' ').split()
         prop = e['property']
         d = tempfile.mkdtemp(prefix='revert-')
@@ -36,19 +35,27 @@ def main():
                 # later repairs touched the same lines: a hand-made patch puts the original defect back on today's tree
                 r = sh('cd %s/repo && git revert --abort; git checkout -q . && git apply %s' % (d, hand))
             if r.returncode != 0:
-                out[e['key']] = {'property': prop, 'commit': e['commit'], 'reverted': False, 'note': r.stdout[-300:]}
-                print(e['key'], 'REVERT-CONFLICT')
-                continue
-            env = dict(os.environ, VMON_REPO=os.path.join(d, 'repo'))
-            r = sh('cd %s && ./check %s --tier quick' % (ROOT, prop), env=env)
-            lines = [l for l in r.stdout.splitlines() if any(k in l for k in ('VIOLATION', ' HELD ', 'INCONCLUSIVE', 'failed monitor', 'KNOWN-FINDING'))]
-            mons = sorted({l.split('monitor=')[1].split()[0] for l in lines if 'monitor=' in l})
-            out[e['key']] = {'property': prop, 'commit': e['commit'], 'reverted': True, 'rc': r.returncode,
-                             'noticed': r.returncode != 0, 'monitors': mons[:5], 'lines': [l[:200] for l in lines[:3]]}
-            print(e['key'], 'NOTICED' if r.returncode != 0 else 'not-noticed', 'rc=%d' % r.returncode, ','.join(mons[:3]))
+                res = {'property': prop, 'commit': e['commit'], 'reverted': False, 'note': r.stdout[-300:]}
+                line = '%s REVERT-CONFLICT' % e['key']
+            else:
+                env = dict(os.environ, VMON_REPO=os.path.join(d, 'repo'), VMON_PAR=os.environ.get('VMON_PAR', '4'))
+                r = sh('cd %s && ./check %s --tier quick' % (ROOT, prop), env=env)
+                lines = [l for l in r.stdout.splitlines() if any(k in l for k in ('VIOLATION', ' HELD ', 'INCONCLUSIVE', 'failed monitor', 'KNOWN-FINDING'))]
+                mons = sorted({l.split('monitor=')[1].split()[0] for l in lines if 'monitor=' in l})
+                res = {'property': prop, 'commit': e['commit'], 'reverted': True, 'rc': r.returncode,
+                       'noticed': r.returncode != 0, 'monitors': mons[:5], 'lines': [l[:200] for l in lines[:3]]}
+                line = '%s %s rc=%d %s' % (e['key'], 'NOTICED' if r.returncode != 0 else 'not-noticed', r.returncode, ','.join(mons[:3]))
         finally:
             shutil.rmtree(d, ignore_errors=True)
-        json.dump(out, open(res_path, 'w'), indent=1)
+        with lock:
+            out[e['key']] = res
+            print(line, flush=True)
+            json.dump(out, open(res_path, 'w'), indent=1)
+
+    with concurrent.futures.ThreadPoolExecutor(max_workers=int(os.environ.get('REVERT_JOBS', '4'))) as ex:
+        list(ex.map(one, todo))
+    n = sum(1 for v in out.values() if v.get('noticed'))
+    print('noticed %d of %d evaluated' % (n, len(out)))
 
 
 if __name__ == '__main__':
